@@ -89,6 +89,32 @@ def build(spec, pool, *, typed=False, kinds=None, tree=None):
     return tree
 
 
+def build_levelorder(spec, pool, *, typed=False):
+    """the same tree as build(), but created level by level and every sibling list back to front (prepending): the
+    registries' insertion order then differs from the document order"""
+    tree = TypedTree("t") if typed else Tree("t")
+    queue = [(tree, spec)]
+    while queue:
+        parent, s = queue.pop(0)
+        made = []
+        for lab, kids in reversed(s):
+            if isinstance(lab, dict):
+                a, k, did = lab["a"], lab.get("k"), lab.get("did")
+            elif isinstance(lab, tuple):
+                a, k, did = lab[0], lab[1], None
+            else:
+                a, k, did = lab, None, None
+            kw = {"before": True}
+            if did is not None:
+                kw["data_id"] = did
+            if typed:
+                kw["kind"] = k or "child"
+            n = parent.add(pool.objs[a], **kw)
+            made.append((n, kids))
+        queue.extend(reversed(made))
+    return tree
+
+
 def meta_wire(m):
     if m is None:
         return None
